@@ -29,6 +29,9 @@ RULE = ('random operator expressions (depth <= 4 quick, <= 5 thorough) over Spar
         'dyadic, non-dyadic and negative regularisations; every expression is applied to a vector, to a 2-d array, through a '
         'direct 2-d _matvec call, transposed, and summed along both axes when it is a SparseLR; a share of '
         'ill-shaped expressions checks the errors; exhaustive 0/1 matrices of shape <= 2x2 for every leaf class; '
+        'programs (DAGs) over operator OBJECTS of all six classes in which the same object takes part in several operations '
+        '(sum, difference, scaling, negation, transposition, sparse products, conversions) and is used again: after every '
+        'statement the operands and the result are re-evaluated against their own denotation ("operand unchanged"); '
         'utilities on the same matrices, label vectors with negatives and gaps, scores with ties; '
         'a case is non-trivial when the matrix has a stored entry (labels: a non-negative label; scores: >= 2 scores); '
         'distinct = distinct (entry point, expression / arguments, query)')
